@@ -561,7 +561,7 @@ def truth(v):
         return len(v.items) > 0
     if type(v).__name__ == 'SymList':
         return v.length > 0
-    if type(v).__name__ == 'SymObj':
+    if type(v).__name__ in ('SymObj', 'SymIter', 'ListView'):
         return True
     if isinstance(v, Obj):
         c = v.cls
@@ -976,7 +976,7 @@ class Interp:
     def st_For(self, st, fr):
         it = self.eval(st.iter, fr)
         it = self.resolve_iterable(it)
-        if type(it).__name__ in ('SymList', 'ListView'):
+        if type(it).__name__ in ('SymList', 'ListView', 'SymIter'):
             spec = self.loop_spec(st, fr)
             if spec is not None:
                 return self.loop_with_invariant(st, fr, spec, it)
@@ -1127,6 +1127,12 @@ class Interp:
             return [self.str_at(v, i) for i in range(n)]
         if v is None:
             raise PyRaise(ExcVal(TypeError))
+        if type(v).__name__ == 'SymObj' and getattr(v.schema, 'tuple_fields', None):
+            from . import heap as H
+            tf = v.schema.tuple_fields
+            if len(tf) != n:
+                raise PyRaise(ExcVal(ValueError))
+            return [H.read_field(self, v, f) for f in tf]
         raise Unsupported(f'unpack {kind_of(v)}')
 
     def setattr(self, base, name, v):
@@ -1803,6 +1809,12 @@ class Interp:
         if type(base).__name__ == 'SymList':
             from . import heap as H
             return H.lst_index(self, base, idx)
+        if type(base).__name__ == 'SymObj' and getattr(base.schema, 'tuple_fields', None) and isinstance(idx, int):
+            from . import heap as H
+            tf = base.schema.tuple_fields
+            if -len(tf) <= idx < len(tf):
+                return H.read_field(self, base, tf[idx])
+            raise PyRaise(ExcVal(IndexError))
         if base is None:
             raise PyRaise(ExcVal(TypeError))
         if isinstance(idx, Opt):
@@ -2220,6 +2232,8 @@ class Interp:
                 try:
                     self.exec_block(st.body, fr)
                 except _Break:
+                    if type(it).__name__ == 'SymIter':
+                        it.cursor = q + 1  # the element at q has been consumed
                     return
                 except _Continue:
                     pass
@@ -2227,6 +2241,8 @@ class Interp:
                 p.oblige(f'{name}.invariant_is_preserved', inv_at(qn))
                 raise PathEnd('loop cut')
             else:
+                if type(it).__name__ == 'SymIter':
+                    it.cursor = view.hi  # exhausted
                 self.exec_block(st.orelse, fr)
             return
         # while
